@@ -237,6 +237,14 @@ func runC07(r *Run, rng *Rng, thorough bool) {
 						if rng.Bool() {
 							shuffle(rng, t)
 						}
+						if rng.Chance(35) {
+							// the dispatching key in a longer-than-necessary (still well-formed) integer encoding
+							for _, pr := range t.Pairs {
+								if pr[0].isInt(265) {
+									pr[0].W = Pick(rng, []int{4, 8})
+								}
+							}
+						}
 						buf := t.Bytes()
 						cres := dispatch(func() (psa.IClaims, error) { return psa.DecodeClaimsFromCBOR(append([]byte{}, buf...)) })
 						r.Case(fmt.Sprintf("p%d/cbor/%s", p, v.class), false, fmt.Sprintf("dispatch-cbor reg=%s %s", regp, hx(buf)), cres.String())
